@@ -763,3 +763,49 @@ Proof.
   - unfold step in H. simpl in H. inversion H; subst; simpl. rewrite B1. repeat split; auto; try lia.
     eapply forall_le_mono; [|eassumption]; lia.
 Qed.
+
+Lemma ids_steps : forall h m m', steps m h = MOk m' -> ids_ok m ->
+  ms_nextid m + 2 * N.of_nat (length h) < two32 -> ids_ok m'.
+Proof.
+  induction h as [|it h IH]; intros m m' H Hi Hb; simpl in H.
+  - inversion H; subst; auto.
+  - destruct (step m it) as [m1| | |] eqn:E; try discriminate.
+    simpl length in Hb.
+    destruct (ids_step _ _ _ E Hi) as [Hi1 Hn1]; [lia|].
+    eapply IH; eauto. lia.
+Qed.
+
+Lemma local_ids_app : forall a b, local_ids (a ++ b) = local_ids a ++ local_ids b.
+Proof.
+  induction a as [|[[x|] id t e|[x|] id e] a IH]; intros b; simpl; auto; destruct (N.eqb id 0); simpl; rewrite IH; auto.
+Qed.
+Lemma local_ids_rev : forall l, local_ids (rev l) = rev (local_ids l).
+Proof.
+  induction l as [|[[x|] id t e|[x|] id e] l IH]; simpl; auto; rewrite local_ids_app, IH; simpl;
+    try destruct (N.eqb id 0); simpl; auto using app_nil_r.
+Qed.
+
+Lemma flush_ids : forall n d defs d' defs', val_id0 d -> flush n d defs = Some (d', defs') -> local_ids defs' = local_ids defs.
+Proof.
+  intros [|n] d defs d' defs' [Hl Hv] H; simpl in H.
+  - inversion H; auto.
+  - destruct (md_defined d) eqn:Ed.
+    + rewrite flush_defined in H by assumption. inversion H; auto.
+    + unfold defineobj in H.
+      destruct (md_storage d); destruct (md_value d) as [[a id t|]|]; try discriminate;
+        rewrite flush_defined in H by reflexivity; inversion H; subst; auto; simpl; destruct a; reflexivity.
+Qed.
+
+Theorem local_names_unique : forall h defs refs,
+  2 * N.of_nat (length h) < two32 -> run_events h = FAccept defs refs -> NoDup (local_ids defs).
+Proof.
+  intros h defs refs Hb Hr. unfold run_events in Hr.
+  destruct (steps init_state h) as [m| | |] eqn:E; try discriminate.
+  assert (H0 : ids_ok init_state) by (unfold ids_ok; simpl; repeat split; auto; constructor).
+  pose proof (ids_steps _ _ _ E H0) as (Hle & Hnd & Hlast); [simpl; lia|].
+  unfold finish in Hr.
+  destruct (ms_frames m) as [|[d|] [|y l]]; try discriminate; simpl in Hlast.
+  - destruct (flush (ms_tent m) d (ms_defs m)) as [[d' defs']|] eqn:F; try discriminate.
+    inversion Hr; subst. rewrite local_ids_rev. apply NoDup_rev. rewrite (flush_ids _ _ _ _ _ Hlast F). assumption.
+  - inversion Hr; subst. rewrite local_ids_rev. apply NoDup_rev. assumption.
+Qed.
